@@ -40,6 +40,11 @@ func isNamed(t types.Type, pkg, name string) bool {
 
 func isTimeTime(t types.Type) bool { return isNamed(t, "time", "Time") }
 
+// uuid.UUID ([16]byte) is an opaque value: only equality, the nil id and the library functions (String, Version) matter.
+const sortUUID = "UUID"
+
+func isUUID(t types.Type) bool { return isNamed(t, "github.com/google/uuid", "UUID") }
+
 var structSortNames = map[string]string{} // types.TypeString -> sort
 var structSortCount = map[string]int{}
 var structOfSort = map[string]*types.Struct{}
@@ -59,6 +64,10 @@ func sortOf(t types.Type) string {
 	t = types.Unalias(t)
 	if isTimeTime(t) {
 		return "Int"
+	}
+	if isUUID(t) {
+		declareSort(sortUUID)
+		return sortUUID
 	}
 	switch u := t.Underlying().(type) {
 	case *types.Basic:
@@ -130,6 +139,10 @@ func zeroTerm(t types.Type) *Term {
 	t = types.Unalias(t)
 	if isTimeTime(t) {
 		return Int(0)
+	}
+	if isUUID(t) {
+		declareSort(sortUUID)
+		return Const("uuid_nil", sortUUID)
 	}
 	switch u := t.Underlying().(type) {
 	case *types.Basic:
